@@ -26,6 +26,7 @@ From WebP Require Lib.ZBits Lib.Res Model.BitReader Model.Huffman Proofs.Lossles
 From WebP Require Lib.Arr Spec.PrefixCode Model.LosslessLib Model.Lossless Proofs.Lossless_HuffmanSafe Proofs.Lossless_PixelSafe Proofs.C04_bits
   Proofs.C01_stream Proofs.C01_symbols Proofs.C01_codes Proofs.C01_pixlib Proofs.C01_pixels Proofs.C01_groups Proofs.C01_gspec Proofs.C01_final Proofs.C01_top.
 From WebP Require Model.BitReaderIO Proofs.BitReaderIO_laws Proofs.BitReaderIO_main.
+From WebP Require Model.LosslessIO Proofs.LosslessIO_laws Proofs.LosslessIO_refine Proofs.LosslessIO_main.
 Import ListNotations.
 
 Theorem read_exact_any_schedule : forall s1 s2 r want, want <= length (remaining r) ->
@@ -255,3 +256,79 @@ Module BRIO.
     /\ run_io ex_data [] (Some 1) ex_ops = ([4; 796723], Err EIoFault, 2).
   Proof. repeat split; vm_compute; reflexivity. Qed.
 End BRIO.
+
+(* ---------------- the WHOLE lossless decoder over a reader whose fill_buf fails once (Model/LosslessIO.v = Model/Lossless.v with fill_io,
+   tied by the c10lossless correspondence through vp8l_decode_reader: outcome incl. exact error variant, number of fill_buf calls) ---------------- *)
+Module LLIO.
+  Import Lib.ZBits Lib.Res Model.Lossless Model.BitReaderIO Model.LosslessIO Proofs.C04_bits Proofs.C01_top Proofs.LosslessIO_main.
+  Local Open Scope Z_scope.
+
+  (* decode_frame_io data sched fail_at W h implicit buf = (final buffer | failure, number of fill_buf calls made) *)
+
+  (* no fault armed: the I/O-level decoder is the decoder of C01 / C03 / module RC, for every input, schedule and buffer *)
+  Theorem lossless_decoder_io_refines_pure : forall data sched W h implicit buf,
+    fst (decode_frame_io data sched None W h implicit buf) = decode_frame data sched W h implicit buf.
+  Proof. exact decode_frame_io_no_fault. Qed.
+
+  (* one injected failure at fill_buf call k; no hypothesis on the data: runs that end in a decoding error are covered *)
+  Theorem lossless_fault_surfaces : forall data sched W h implicit buf k,
+    (0 <= k < snd (decode_frame_io data sched None W h implicit buf) ->
+       decode_frame_io data sched (Some k) W h implicit buf = (Err EIoFault, k + 1))
+    /\ (k < 0 \/ snd (decode_frame_io data sched None W h implicit buf) <= k ->
+       decode_frame_io data sched (Some k) W h implicit buf = decode_frame_io data sched None W h implicit buf).
+  Proof. exact Proofs.LosslessIO_main.lossless_fault_surfaces. Qed.
+
+  Theorem lossless_fault_no_new_outcome : forall data sched fa W h implicit buf,
+    fst (decode_frame_io data sched fa W h implicit buf) = Err EIoFault
+    \/ fst (decode_frame_io data sched fa W h implicit buf) = decode_frame data sched W h implicit buf.
+  Proof. exact Proofs.LosslessIO_main.lossless_fault_no_new_outcome. Qed.
+
+  Theorem lossless_call_count_nonneg : forall data sched W h implicit buf,
+    0 <= snd (decode_frame_io data sched None W h implicit buf).
+  Proof. exact decode_frame_io_calls_nonneg. Qed.
+
+  (* never success with partially decoded data: the hypotheses are those of C01's R.frame_matches_spec *)
+  Theorem lossless_fault_never_partial : forall data sched W h buf pixels k,
+    Forall byte data -> Z.of_nat (length buf) = 4 * (W * h) ->
+    V.decode_rgba data = Some (W, h, pixels) -> codes_in_format data ->
+    (forall s0, V.read_header (V.Stream [] data) = Some (W, h, s0) -> in_format W h s0) ->
+    let n := snd (decode_frame_io data sched None W h false buf) in
+    decode_frame_io data sched None W h false buf = (Ok pixels, n)
+    /\ (0 <= k < n -> decode_frame_io data sched (Some k) W h false buf = (Err EIoFault, k + 1))
+    /\ (k < 0 \/ n <= k -> decode_frame_io data sched (Some k) W h false buf = (Ok pixels, n)).
+  Proof. exact Proofs.LosslessIO_main.lossless_fault_never_partial. Qed.
+
+  Theorem lossless_fault_never_partial_implicit : forall data sched W h buf pixels k,
+    Forall byte data -> Z.of_nat (length buf) = 4 * (W * h) ->
+    V.decode_implicit_rgba W h data = Some pixels -> codes_in_format_implicit W h data -> in_format W h (V.Stream [] data) ->
+    let n := snd (decode_frame_io data sched None W h true buf) in
+    decode_frame_io data sched None W h true buf = (Ok pixels, n)
+    /\ (0 <= k < n -> decode_frame_io data sched (Some k) W h true buf = (Err EIoFault, k + 1))
+    /\ (k < 0 \/ n <= k -> decode_frame_io data sched (Some k) W h true buf = (Ok pixels, n)).
+  Proof. exact Proofs.LosslessIO_main.lossless_fault_never_partial_implicit. Qed.
+
+  Theorem lossless_io_error_or_spec_pixels : forall data sched fa W h buf pixels,
+    Forall byte data -> Z.of_nat (length buf) = 4 * (W * h) ->
+    V.decode_rgba data = Some (W, h, pixels) -> codes_in_format data ->
+    (forall s0, V.read_header (V.Stream [] data) = Some (W, h, s0) -> in_format W h s0) ->
+    fst (decode_frame_io data sched fa W h false buf) = Err EIoFault \/ fst (decode_frame_io data sched fa W h false buf) = Ok pixels.
+  Proof. exact Proofs.LosslessIO_main.lossless_io_error_or_spec_pixels. Qed.
+
+  (* the F3 witness of C01 (2x1 image, 11 bytes) in windows of 1, 2, 1 bytes and then the rest: 17 fill_buf calls, a fault at each of them
+     surfaces after k + 1 calls, beyond them nothing changes; through a Cursor 10 calls; the hypotheses of never_partial hold for it *)
+  Example lossless_fault_example :
+    decode_frame_io ex_data [1; 2; 1] None 2 1 false (repeat 7 8) = (Ok ex_px, 17)
+    /\ forallb (fun k => match decode_frame_io ex_data [1; 2; 1] (Some k) 2 1 false (repeat 7 8) with
+                         | (Err EIo, c) => c =? k + 1 | _ => false end)
+               [0; 1; 2; 3; 4; 5; 6; 7; 8; 9; 10; 11; 12; 13; 14; 15; 16] = true
+    /\ decode_frame_io ex_data [1; 2; 1] (Some 17) 2 1 false (repeat 7 8) = (Ok ex_px, 17)
+    /\ decode_frame_io ex_data [] None 2 1 false (repeat 7 8) = (Ok ex_px, 10)
+    /\ decode_frame_io ex_data [] (Some 9) 2 1 false (repeat 7 8) = (Err EIoFault, 10).
+  Proof. exact Proofs.LosslessIO_main.lossless_fault_example. Qed.
+
+  Example lossless_fault_hypotheses_satisfiable :
+    Forall byte ex_data /\ Z.of_nat (length (repeat 7 8)) = 4 * (2 * 1)
+    /\ V.decode_rgba ex_data = Some (2, 1, ex_px) /\ codes_in_format ex_data
+    /\ (forall s0, V.read_header (V.Stream [] ex_data) = Some (2, 1, s0) -> in_format 2 1 s0).
+  Proof. exact Proofs.LosslessIO_main.lossless_fault_hypotheses_satisfiable. Qed.
+End LLIO.
